@@ -865,4 +865,29 @@ for _vt, _nm in enumerate(("null", "false", "empty_string", "empty_array", "empt
 
 # round 4: which properties further obligations bear on
 _also(["C12.upgrade_rules"], ["C13"])                    # every label says which handshakes are (not) upgraded: a non-upgrade answered 101 is C13's subject
-_also(["C10.writev_step", "C10.flush_step"], ["C06"])     # the write buffer's fill level stays inside the buffer (memory safety of the send path)
+# the write buffer's fill level stays inside the buffer: memory safety of the send path (C06); the other C10 labels are not C06's subject
+for _o in OBLIGATIONS:
+    if _o["id"] in ("C10.writev_step", "C10.writev_step_3x3", "C10.flush_step"):
+        if "C06" not in _o["props"]:
+            _o["props"].append("C06")      # built-in (auto) checks of an obligation count for all of its properties
+        _o.setdefault("label_props", {})["C10.pending_count_in_bounds"] = ["C10", "C06"]
+
+# ------------------------------------------------------------------------------------------------ notes for the round-4 extensions
+def _note_add(p, comp=None, outside_replace=None):
+    n = PROPERTY_NOTES[p]
+    if comp:
+        n["composition"] = n["composition"].rstrip() + " " + comp
+    if outside_replace:
+        n["outside"] = outside_replace
+_note_add("C17", "window_*: at order 7 (128 slots, insertion range 64) the edge of the 32-slot hop window: with 31 keys in a bucket's window the last slot is used, with 32 the put is refused when nothing can move, and find_closer_entry displaces a neighbour's entry (free slot at distance 32 and at distance 41) - invariant with the real window of 32 preserved, every stored key still found through the real lookup, the new key found and removable; at the table start and wrapping around its end.",
+          "table orders >= 4 for the symbolic inductive steps (quick: order 2, thorough: order 3); at order 7 only the concrete window layouts above (stored value symbolic); key universe of 6 keys and single-letter string keys in the inductive steps; the production orders 6 and 13 as such.")
+_note_add("C14", "batch_*_disconnect_*: the expiry harvested in one batch with the owner's or the caller's disconnect, in both orders: one final answer (owner leaves) / the timeout answer only while the caller is connected, nothing sent through the released connection, timer descriptor closed and deregistered, no released object touched.",
+          "'no earlier than the deadline' (kernel timerfd semantics); batches of more than two events.")
+_note_add("C16", "get_rule_*: the same rules in a get request return exactly the matching elements and leave nothing behind. rule_option_name_* / get_rule_option_name_*: a key that merely resembles the option key (prefix, other case) is an unknown matcher and is refused without side effects.")
+_note_add("C19", "negotiation_6..8 and the window labels: for offers that carry a value, the negotiated client / server window is never larger than the offered one and the response states the negotiated value.")
+_note_add("C20", "passwd_account_whose_name_*: a user whose name is a prefix / an extension of the target's name is not the target. The file offset before an update is arbitrary (0..4) and truncation leaves holes as zero bytes: the update must not depend on where earlier reads/writes left the offset; passwd_own_account/passwd_admin perform a second change and the file again holds exactly the serialisation.")
+_note_add("C15", "fetch_grow: the same for the third subscription to an element (the element's subscription table has to grow). After every injected failure a fault-free change of the element by its owner is carried out (the daemon keeps serving).")
+_note_add("C04", "shape_*: hostile member shapes (C06.shape_* obligations) leave every element unchanged. state_with_value_*: an element added with a value of any JSON type (null, false, \"\", [], {}, 0) is a state: listed by get, call refused, owner's change accepted.")
+_note_add("C06", "shape_*: 42 hostile JSON-RPC message shapes (members missing, of the wrong type, nested; bare scalars; empty / nested batches; responses with odd ids) through the real dispatcher and handlers: memory safe, connection kept or closed as documented, at most one (error) response, nothing routed, nobody notified, nothing leaked.")
+_note_add("C05", "peer_leaves_with_everything: one peer that owns a subscribed state, holds a fetch, is the caller of one in-flight request and the owner of another leaves: subscribers see remove once, the foreign caller gets one error, its own request is dropped (late reply writes nothing), its fetch no longer receives events, other peers' elements and fetches are unaffected, everything is released once all peers are gone.")
+_note_add("C03", "self_request_bystander: a peer's set to its own state is neither answered nor dropped by a bystander's disconnect.")
